@@ -247,15 +247,19 @@ def run_part(prop, goprop, engine, gomaxprocs, tier, seed, budget, work, known_s
             log("INFRASTRUCTURE FAILURE (exit 2): violation without replay file: " + sig)
             sys.exit(2)
         ro = replay_in_fresh_process(binary, rp, work, "%s-v%d" % (tag, len(new_violations) + len(known_seen)))
-        if not ro.get("reproduced"):
-            log("INFRASTRUCTURE FAILURE (exit 2): violation %s did not reproduce from its replay file %s in a fresh process" % (sig, rp))
-            sys.exit(2)
         if sig in known_sigs:
             known_seen[sig] = v
             dst = os.path.join(REPLAYS, "known", os.path.basename(rp))
             os.makedirs(os.path.dirname(dst), exist_ok=True)
             shutil.copy(rp, dst)
-            log("KNOWN-FINDING: property=%s %s [sig=%s; seen %d times; example replay=%s]" % (prop, known_sigs[sig]["text"], sig, v["count"], dst))
+            note = "" if ro.get("reproduced") else "; depends on a hardware interleaving, not reproduced by this replay"
+            log("KNOWN-FINDING: property=%s %s [sig=%s; seen %d times; example replay=%s%s]" % (prop, known_sigs[sig]["text"], sig, v["count"], dst, note))
+            continue
+        if not ro.get("reproduced"):
+            log("INFRASTRUCTURE FAILURE (exit 2): violation %s did not reproduce from its replay file %s in a fresh process" % (sig, rp))
+            sys.exit(2)
+        if False:
+            pass
         else:
             dst = os.path.join(REPLAYS, os.path.basename(rp))
             shutil.copy(rp, dst)
